@@ -326,11 +326,11 @@ func (s *Sched) Run(maxSteps int) error {
 			if !ok {
 				// an unnamed goroutine is named after the place where it first parked (not by a global
 				// counter: a counter would let one flipped arrival order rename every later goroutine);
-				// a second goroutine first parking at the same place gets "#2", and so on
+				// a second goroutine first parking at the same place gets "~2", and so on
 				n = "g@" + it.Key
 				s.gbase[n]++
 				if c := s.gbase[n]; c > 1 {
-					n = fmt.Sprintf("%s#%d", n, c)
+					n = fmt.Sprintf("%s~%d", n, c) // ('#' separates an event's argument in recorded keys)
 				}
 				s.gnames[it.gid] = n
 			}
